@@ -12,6 +12,8 @@ def cases(chk, mdl):
              "s:", "", "/", "//h", "a", "s:a/b/../../c/d/e", "//@:/", "s://h/a/b/c/d/e/f/.."]
     # allocation sites that need a particular shape: address hosts at the very end / before a port, segments that cannot be a scheme
     texts += ["//1.2.3.4", "//1.2.3.4:80", "//1.2.3.4:80/", "//u:1@1.2.3.4", "a%41", "a%41?q", "a?q", "a#f", "//[::1]", "a/b/..", "s://h/a//..", "x/y//..", "/a/b/c/./"]
+    # the guard of normalization (uriFixAmbiguity after dot removal: a node and a one-character text): absolute, rootless, relative
+    texts += ["/..//.", "s:/a/..//b", "a/..///b", "s:a/..//", "/x/../..//%41/./b"]
     texts += chk.rng.sample(uris.valid_texts(mdl, uris.small_texts(3, alphabet=uris.SEG_FULL, auths=(None, "//h"), schemes=(None, "s"))), 60 if q else 800)
     calls = []
     for t in texts:
